@@ -17,6 +17,7 @@
 import CatVerif.Proofs.Hold
 import CatVerif.Proofs.Log
 import CatVerif.Proofs.Setters
+import CatVerif.Proofs.Steps
 namespace Cat
 open St
 
@@ -94,5 +95,9 @@ in the source (translator item T7), and leaving a line through `reset_state` lik
 theorem C14_hold_setters_generated (D : Desc) (s : St) :
     enableHoldState s = Gen.enable_hold_state D s ∧ resetState s = Gen.reset_state D s :=
   ⟨enableHoldState_generated D s, resetState_generated D s⟩
+
+/-- the release from HOLD is the text regenerated from `process_hold_state` (translator item T9) -/
+theorem C14_release_generated (D : Desc) (s : St) : processHoldState D s = Gen.process_hold_state D s :=
+  processHoldState_generated D s
 
 end Cat
